@@ -312,8 +312,9 @@ fn foreign_cases() -> Vec<Foreign> {
     for files in &sets {
         for order in permutations(files.len()) {
             for (cname, comp) in [("none", None), ("gzip", Some("gzip"))] {
-                for stripped in [false, true] {
+                for (stripped, upper) in [(false, false), (true, false), (false, true)] {
                     let arch = if stripped { foreign::stripped_archive(files, &order) } else { foreign::newc_archive(files, &order) };
+                    let arch = if upper { foreign::newc_upper_hex(&arch) } else { arch };
                     let payload = if comp.is_some() { gzip(&arch) } else { arch };
                     let mut parts = foreign::package("foreign", files, payload, comp, stripped);
                     if stripped {
@@ -327,7 +328,7 @@ fn foreign_cases() -> Vec<Foreign> {
                     v.push(Foreign {
                         desc: json!({"header_files": files.iter().map(|f| json!({"path": f.path(), "ghost": f.flags & 64 != 0})).collect::<Vec<_>>(),
                                      "archive_order": order.iter().map(|&i| files[i].path()).collect::<Vec<_>>(), "compression": cname,
-                                     "layout": if stripped {"stripped (07070X + index, padded to 4, as rpm writes it)"} else {"newc"}}),
+                                     "layout": if stripped {"stripped (07070X + index, padded to 4, as rpm writes it)"} else if upper {"newc with upper-case hexadecimal header fields (as GNU cpio writes them)"} else {"newc"}}),
                         bytes,
                         expect,
                     });
@@ -418,7 +419,7 @@ pub fn run(ctx: &Ctx) -> i32 {
     let s2 = SubReport::new(
         "foreign",
         "A",
-        &format!("{} hand-encoded packages: 4 file sets (1–3 header files incl. a %ghost file that is not archived, a symlink, an empty file) × every ordered selection of their entries as archive order × {{uncompressed, gzip}} × {{newc, stripped entries with rpm's alignment bytes}}. Oracle: files() yields the archived entries in archive order, each under the metadata of the file of that name (of that index for stripped entries), bytes identical", fc.len()),
+        &format!("{} hand-encoded packages: 4 file sets (1–3 header files incl. a %ghost file that is not archived, a symlink, an empty file) × every ordered selection of their entries as archive order × {{uncompressed, gzip}} × {{newc, newc with upper-case hexadecimal header fields, stripped entries with rpm's alignment bytes}}. Oracle: files() yields the archived entries in archive order, each under the metadata of the file of that name (of that index for stripped entries), bytes identical", fc.len()),
         b,
     );
     if s1.acc.nontrivial == 0 || s2.acc.nontrivial == 0 {
